@@ -63,7 +63,7 @@ def concretise(p, rnd):
            "u64max": (1 << 64) - 1, "u64max+1": 1 << 64, "i64max+1": 1 << 63, "huge": 10 ** 30 + 7,
            "lo-1": abs(lo - 1), "lo": abs(lo), "hi": abs(hi), "hi+1": abs(hi + 1), "empty": None}[p["digits"]]
     digits = "" if mag is None else tobase(mag, b)
-    s = {"none": "", "sp": " ", "mixed": "\t\n \r"}[p["ws"]] + {"none": "", "plus": "+", "minus": "-"}[p["sign"]] + pre + digits + \
+    s = {"none": "", "sp": " ", "mixed": "\t\n \r", "vt": "\v", "ff": "\f"}[p["ws"]] + {"none": "", "plus": "+", "minus": "-"}[p["sign"]] + pre + digits + \
         {"none": "", "sp": " ", "letter": "z" if b < 36 else "!", "comma": ", 34"}[p["junk"]]
     lines = []
     tr = 1 if p["trailing"] else 0
